@@ -3,8 +3,9 @@
    label set (verdict, marked ids in the order the code produces them, and the cache entry afterwards), the API's alert
    status, MuteStage.Exec on a batch, alert GC, and dumps of the store bookkeeping + unfiltered Query.
    check_case: the model reproduces every observed output.
-   prop_case : on the model run, every Mutes / API status / MuteStage result equals the direct evaluation of the
-               model's current store (brute / brute_ids) — judged only on histories that keep the theorem's
+   prop_case : on the model run, every (uninterrupted) Mutes / API status / MuteStage result equals the direct evaluation
+               of the model's current store (brute / brute_ids); an interrupted Mutes is bracketed by the stores before
+               and after the injected operations — judged only on histories that keep the theorem's
                hypotheses (one matcher set list per id, every stored matcher compiles). *)
 From AM Require Export Base.Prelude Model.Matchers Model.Silence Model.Silencer.
 
@@ -18,7 +19,12 @@ Definition mask_out (o : out) : out :=
   | RMerged _ => RMerged O
   | _ => o
   end.
-Definition mask (y : cout) : cout := match y with XStore o => XStore (mask_out o) | _ => y end.
+Definition mask (y : cout) : cout :=
+  match y with
+  | XStore o => XStore (mask_out o)
+  | XMutesI r v ids outs => XMutesI r v ids (map mask_out outs)
+  | _ => y
+  end.
 
 Definition model_run (k : case) : (store * cache) * list cout :=
   crun (k_cfg k) (ext_of_table (k_ext k)) (empty_store, empty_cache) (map fst (k_hist k)).
@@ -54,9 +60,9 @@ Definition ghost_add (x : ext) (acc : ghost * bool) (id : string) (ms : list (li
   end.
 Definition ghost_store (x : ext) (acc : ghost * bool) (S : store) : ghost * bool :=
   foldl (fun a kv => ghost_add x a (fst kv) (s_ms (m_sil (snd kv)))) acc (map_to_list (st S)).
-Definition ghost_op (x : ext) (acc : ghost * bool) (o : cop) : ghost * bool :=
+Definition ghost_sop (x : ext) (acc : ghost * bool) (o : op) : ghost * bool :=
   match o with
-  | CStore (OMerge b _ _) =>
+  | OMerge b _ _ =>
       foldl (fun a w => match w with
                         | Some w => let e := decode_rec w in
                                     let '(G, ok) := ghost_add x a (m_id e) (s_ms (m_sil e)) in
@@ -64,12 +70,26 @@ Definition ghost_op (x : ext) (acc : ghost * bool) (o : cop) : ghost * bool :=
                         | None => a end) acc b
   | _ => acc
   end.
+Definition ghost_op (x : ext) (acc : ghost * bool) (o : cop) : ghost * bool :=
+  match o with
+  | CStore so => ghost_sop x acc so
+  | CMutesI _ _ ops => foldl (ghost_sop x) acc ops
+  | _ => acc
+  end.
 
 Definition sort_free_eq (a b : list string) : bool := same_ids a b && (length a =? length b)%nat.
 
 (* judge one step on the model *)
-Definition judge (x : ext) (S : store) (now : Z) (o : cop) (y : cout) : bool :=
+Definition judge (x : ext) (S S' : store) (now : Z) (o : cop) (y : cout) : bool :=
   match o, y with
+  (* an interrupted call: everything marked is active and matching in the store before or after the injected
+     operations, everything active and matching in both is marked, the verdict says whether something is marked *)
+  | CMutesI ls _ _, XMutesI (MOk b ids) _ _ _ =>
+      let b0 := brute_ids x S ls now in
+      let b1 := brute_ids x S' ls now in
+      forallb (fun k => mem k b0 || mem k b1) ids && forallb (fun k => negb (mem k b1) || mem k ids) b0 &&
+      beq b (match ids with [] => false | _ => true end)
+  | CMutesI _ _ _, _ => false
   | CMutes ls, XMutes (MOk b ids) _ _ => beq b (brute x S ls now) && sort_free_eq ids (brute_ids x S ls now)
   | CMutes _, _ => false
   | CApi ls, XApi (Some ids) => sort_free_eq ids (brute_ids x S ls now)
@@ -87,7 +107,7 @@ Fixpoint prop_run (c : cfg) (x : ext) (SC : store * cache) (G : ghost * bool) (h
       let '(SC1, y) := cstep c x SC now o in
       let G1 := ghost_store x (ghost_op x G o) (fst SC1) in
       let '(wf, ok) := prop_run c x SC1 G1 r in
-      (wf, judge x (fst SC) now o y && ok)
+      (wf, judge x (fst SC) (fst SC1) now o y && ok)
   end.
 
 Definition hyps_hold (k : case) : bool :=
